@@ -78,6 +78,14 @@ def _dict_in(src, fn, name):
     raise SourceShapeError('no dict literal %s found' % name)
 
 
+def _dict_anywhere(src, tree, fn, name):
+    """The table may live inside the function or at module level."""
+    try:
+        return _dict_in(src, fn, name)
+    except SourceShapeError:
+        return _dict_in(src, tree, name)
+
+
 def read_literals(repo):
     """{'unit': {unit: [lit...]}, 'R': {...}, 'h': {...}, 'kb': {...}, 'c': {...},
         'Na': [lit], 'num': {'m_e': [lit], 'm_p': [...], 'P0': [...], 'T0': [...]}}"""
@@ -90,11 +98,11 @@ def read_literals(repo):
     for k in need:
         if k not in fns:
             raise SourceShapeError('function %s not found in constants.py' % k)
-    out = {'unit': _dict_in(src, fns['convert_unit'], 'unit_dict'),
-           'R': _dict_in(src, fns['R'], 'R_dict'),
-           'h': _dict_in(src, fns['h'], 'h_dict'),
-           'kb': _dict_in(src, fns['kb'], 'kb_dict'),
-           'c': _dict_in(src, fns['c'], 'c_dict'),
+    out = {'unit': _dict_anywhere(src, tree, fns['convert_unit'], 'unit_dict'),
+           'R': _dict_anywhere(src, tree, fns['R'], 'R_dict'),
+           'h': _dict_anywhere(src, tree, fns['h'], 'h_dict'),
+           'kb': _dict_anywhere(src, tree, fns['kb'], 'kb_dict'),
+           'c': _dict_anywhere(src, tree, fns['c'], 'c_dict'),
            'num': {}}
     na = None
     for n in tree.body:
